@@ -2,6 +2,7 @@ import Py4hwV.Drv.Proto
 import Py4hwV.Verilog.SExp
 import Py4hwV.Verilog.Run
 import Py4hwV.Transpile.VBegin0
+import Py4hwV.Transpile.VSession
 import Py4hwV.Net.Sim
 /- Verilog interpreter driver (session) - copy of Drv/V.lean whose `begin` drives the top-level inputs with 0 before the first settle (Transpile/VBegin0.lean).
      design <sexp>          parse the S-expression of a whole design            -> ok | parse-error
@@ -31,7 +32,7 @@ def stepS (ss : Sess) (line : String) : Sess × String :=
     ({ ss with m := some m }, if m.errors.isEmpty then "ok" else "err: " ++ " ; ".intercalate m.errors)
   | ["set", n, v] =>
     match ss.m, v.toNat? with
-    | some m, some v => ({ ss with m := some { m with st := m.st.wr (.whole n) ⟨widthOf m.st.rd n, v, true⟩ } }, "ok")
+    | some m, some v => ({ ss with m := some (m.setIn n v) }, "ok")      -- V.Sim.setIn (Transpile/VSession.lean): what C02.run_history is about
     | _, _ => (ss, "bad-op")
   | ["settle"] =>
     match ss.m with
